@@ -16,6 +16,8 @@
 (*           *args and **kw                                                                                          *)
 (*   "deco"  ready-made decorator objects (one per history; two in the thorough tier) applied to two functions      *)
 (*           made from one code object, the decorated functions called in any order                                 *)
+(*   "order" one state per (base signature, chain of <= MaxOrdChain decorator kinds): calls with two to four keywords,     *)
+(*           the failing value in every place, in EVERY ORDER the keywords can be written at the call site            *)
 (* The generator actions (NextGen) print, with PrintT(ToJson(..)), the case and what the          *)
 (* specification expects; `hist` is only ever extended by them.  MC_Decorators_today.cfg runs the  *)
 (* pointer-heap model of TODAY's wrapper.__init__ (FixedCode = FALSE), which breaks MechRefinesMC. *)
@@ -24,7 +26,8 @@ CONSTANTS MaxWraps, LastOnlyFrom, MaxChain, MaxCalls, Wide, Modes,
           MaxExcChain,     \* "exc": chains of that many decorator kinds
           MaxBindings,     \* "args": bindings the caller holds at a time
           MaxArgSteps,     \* "args": length of a generated history
-          MaxDecoObjs, MaxDecoCalls, TwoDecos   \* "deco": decorated functions, calls per generated history, a second decorator object
+          MaxDecoObjs, MaxDecoCalls, TwoDecos,  \* "deco": decorated functions, calls per generated history, a second decorator object
+          MaxOrdChain      \* "order": chains of that many decorator kinds
 VARIABLES mode, hist,
           dkinds           \* "deco": the ready-made decorator objects of the history (kinds); <<>> in the other modes
 mcvars == <<base, objs, cells, roots, memo, evals, store, dobjs, out, mode, hist, dkinds>>
@@ -97,6 +100,27 @@ ExcCallsFor(sig) == {cc \in {[pos |-> <<VStr(m)>>, kw |-> <<>>] : m \in Range(Fa
                        Valid(sig, DropUndeclared(sig, cc))}         \* valid for f, or for kwargs_support(f)
 ExcCallsOf == [sig \in BaseSigs |-> ExcCallsFor(sig)]
 
+\* --- "order": the order the keywords are written in ------------------------------------------------
+\* f(a, b, c='dc') and f(a='da', b='db', c='dc', **kw) join the base functions: three parameters that can all be named
+OrdSigs == {s \in BaseSigs : s.npos >= 1} \cup {S(3, 1, FALSE, FALSE), S(3, 3, FALSE, TRUE)}
+OrdNames == <<"a", "b", "c", "x">>
+\* k positional arguments, the names passed by keyword, and the place of the value that makes f fail ("" = nowhere,
+\* "1" = the first positional argument, otherwise the keyword of that name) or return None ("q" + place)
+OrdCC(k, names, bad, quiet) ==
+    LET ns == SelectSeq(OrdNames, LAMBDA n : n \in names) IN
+    [pos |-> Tup([i \in 1..k |-> IF i = 1 /\ bad = "1" THEN VStr("bad_bare") ELSE IF i = 1 /\ quiet = "1" THEN Quiet ELSE VInt(i)]),
+     kw  |-> Tup([j \in 1..Len(ns) |-> <<ns[j], IF ns[j] = bad THEN Bad ELSE IF ns[j] = quiet THEN Quiet ELSE NameValOf[ns[j]]>>])]
+OrdCallsFor(sig) == {cc \in {OrdCC(k, names, bad, quiet) : k \in 0..1, names \in {z \in SUBSET Range(OrdNames) : Cardinality(z) >= 2},
+                                                            bad \in {"", "1"} \cup Range(OrdNames), quiet \in {"", "a"}} :
+                        /\ HasBad(cc) => ~HasQuiet(cc)
+                        /\ Cardinality({i \in 1..Len(cc.kw) : IsMark(cc.kw[i][2])}) + Cardinality({i \in 1..Len(cc.pos) : IsMark(cc.pos[i])}) <= 1
+                        /\ Valid(sig, DropUndeclared(sig, cc))}
+OrdCallsOf == [sig \in OrdSigs |-> OrdCallsFor(sig)]
+\* the wrappers whose law or mechanism looks at "the first parameter" or at the keywords: all nine kinds alone, and under / over each other
+OrdChains == {Tup(ks) : ks \in {z \in SeqsUpTo(Range(BindKindSeq), MaxOrdChain) : Len(z) >= 1 /\ DistinctClasses([i \in 1..Len(z) |-> LayerOf(z[i])])}}
+\* the orders n keywords can be written in (positions of the canonical spelling), printed once per table
+OrderTable == Tup([n \in 1..Len(OrdNames) |-> SetToSeq(PermsOf(n))])
+
 \* --- "args": the calls whose bindings the caller holds ----------------------------------------------
 ArgSigs == {S(2, 1, FALSE, FALSE), S(1, 0, TRUE, TRUE), S(2, 2, FALSE, TRUE), S(2, 1, TRUE, TRUE)}
            \cup (IF Wide THEN {S(0, 0, TRUE, FALSE), S(3, 2, TRUE, TRUE)} ELSE {})
@@ -130,6 +154,9 @@ Init == /\ mode \in Modes /\ hist = <<>>
            \/ mode = "exc" /\ \E sig \in BaseSigs, ks \in ExcChains :
                   /\ dkinds = ks /\ base = sig /\ objs = <<KindChain(ks)>> /\ cells = <<>> /\ roots = <<>>
                   /\ memo = <<>> /\ evals = 0 /\ store = <<>> /\ dobjs = <<>> /\ out = <<"idle", 0>>
+           \/ mode = "order" /\ \E sig \in OrdSigs, ks \in OrdChains :
+                  /\ dkinds = ks /\ base = sig /\ objs = <<KindChain(ks)>> /\ cells = <<>> /\ roots = <<>>
+                  /\ memo = <<>> /\ evals = 0 /\ store = <<>> /\ dobjs = <<>> /\ out = <<"idle", 0>>
            \* "args": object 0 = f, object 1 = W(f) for one decorator kind W
            \/ mode = "args" /\ \E sig \in ArgSigs, kind \in ArgKinds :
                   /\ dkinds = <<kind>> /\ base = sig /\ objs = <<<<LayerOf(kind)>>>> /\ cells = <<>> /\ roots = <<>>
@@ -150,7 +177,7 @@ CachedStep == /\ mode = "memo" /\ \E cc \in MemoKeys : CallCached(cc)
               /\ UNCHANGED <<mode, hist, dkinds>>
 \* (TLC checks the invariants of initial states on one thread: the clauses about calls are attached to the
 \*  state after this step so that all workers share them)
-ChainStep  == /\ mode \in {"chain", "exc"} /\ out[1] = "idle" /\ out' = <<"table", 0>>
+ChainStep  == /\ mode \in {"chain", "exc", "order"} /\ out[1] = "idle" /\ out' = <<"table", 0>>
               /\ UNCHANGED <<base, objs, cells, roots, memo, evals, store, dobjs, mode, hist, dkinds>>
 \* "args": any public call on a binding, any edit by its owner
 ArgGetOK      == Len(store) < MaxBindings
@@ -204,6 +231,13 @@ GenExc ==
     /\ LET ms == SetToSeq({cc \in ExcCallsOf[base] : ValidFor(base, objs[1], cc)}) IN
        PrintT(ToJson([part |-> "exc", sig |-> base, kinds |-> dkinds, chain |-> objs[1], argspec |-> ArgSpec(base),
                       outs |-> Tup([i \in 1..Len(ms) |-> <<ms[i], LawOutcome(base, objs[1], ms[i])>>])]))
+\* "order": the table (kinds of the chain) -> expected outcome of every call, which is the outcome of EVERY spelling of it
+GenOrder ==
+    /\ mode = "order" /\ out[1] = "idle" /\ out' = <<"table", 0>>
+    /\ UNCHANGED <<base, objs, cells, roots, memo, evals, store, dobjs, mode, hist, dkinds>>
+    /\ LET ms == SetToSeq({cc \in OrdCallsOf[base] : ValidFor(base, objs[1], cc)}) IN
+       PrintT(ToJson([part |-> "order", sig |-> base, kinds |-> dkinds, chain |-> objs[1], orders |-> OrderTable,
+                      outs |-> Tup([i \in 1..Len(ms) |-> <<ms[i], LawOutcome(base, objs[1], ms[i])>>])]))
 \* "args": every step of a history with what the specification expects after it: the outcome of the call and ALL the
 \* caller's bindings
 ArgPrint == PrintT(ToJson([part |-> "args", sig |-> base, kind |-> dkinds[1], hist |-> hist', store |-> store',
@@ -238,11 +272,13 @@ GenDecoCall == mode = "deco" /\ NCalls < MaxDecoCalls /\ \E i \in 1..Len(dobjs),
     /\ CallDecorated(i, cc)
     /\ hist' = Append(hist, [op |-> "call", k |-> 0, on |-> i, cc |-> cc]) /\ UNCHANGED <<mode, dkinds>>
     /\ DecoPrint
-NextGen == GenBind \/ GenWrap \/ GenCached \/ GenChain \/ GenExc \/ GenArgGet \/ GenArgReplay \/ GenArgEdit
+NextGen == GenBind \/ GenWrap \/ GenCached \/ GenChain \/ GenExc \/ GenOrder \/ GenArgGet \/ GenArgReplay \/ GenArgEdit
            \/ GenDecorate \/ GenRedecorate \/ GenDecoCall
 
 \* the memo machine says what the statement says about the whole call sequence (generator run: hist = the calls)
 MemoIsLaw == (mode = "memo" /\ hist # <<>>) => (out[4] = LawOuts(base, hist)[Len(hist)] /\ evals = LawEvals(hist))
+\* ... at every point of the sequence, by the fold the trace specification applies to recorded histories of any length
+MemoScalesMC == (mode = "memo" /\ hist # <<>>) => MemoScales(base, hist)
 
 \* ------------------------------------------------------------------ properties (one per clause)
 \* (a) binding is total on valid calls, loses and invents nothing, and does not depend on the split
@@ -298,6 +334,24 @@ ExcLaws == ExcState => \A cc \in ExcCallsOf[base] : ValidFor(base, Newest, cc) =
               /\ (IsFailure(f) /\ TryIdx(Newest) # {}) => r = Fallback(Newest[Max(TryIdx(Newest))], base, cc)
               /\ (~IsFailure(f) \/ TryIdx(Newest) = {}) => r = f
               /\ IsInterrupt(f) => r = f
+\* (b'') the order the keywords are written in: whatever the law looks at - validity, every parameter's value, the extra
+\* keywords as a set, the first argument, whether and how f fails, what kwargs_support drops - is the same for every
+\* spelling of a call; and the mechanism of today's try_back (the first positional argument, else the keyword NAMED like
+\* f's first parameter) returns the law's first argument on every spelling, while "the keyword written first" does not
+\* (OrderMatters: the calls of this universe tell the two apart)
+OrdState == mode = "order" /\ out[1] = "table"
+KwItems(cc) == {cc.kw[i] : i \in 1..Len(cc.kw)}
+OrderLaws == OrdState => \A cc \in OrdCallsOf[base] : ValidFor(base, Newest, cc) => \A order \in Orders(cc) :
+                LET w == Written(cc, order)  eff == Effective(base, Newest, cc)  effw == Effective(base, Newest, w) IN
+                /\ IsSpelling(order, cc) /\ w.pos = cc.pos /\ KwItems(w) = KwItems(cc)
+                /\ Valid(base, effw) = Valid(base, eff) /\ KwItems(effw) = KwItems(eff)
+                /\ \A i \in 1..base.npos : ParamVal(base, effw, i) = ParamVal(base, eff, i)
+                /\ KwItems([pos |-> <<>>, kw |-> Pay(VarKw(base, effw))]) = KwItems([pos |-> <<>>, kw |-> Pay(VarKw(base, eff))])
+                /\ HasBad(effw) = HasBad(eff) /\ HasQuiet(effw) = HasQuiet(eff) /\ (HasBad(eff) => FailClass(effw) = FailClass(eff))
+                /\ FirstArg(base, w) = FirstArg(base, cc)
+                /\ (Len(w.pos) = 0 /\ base.npos > 0 /\ "a" \in KwNames(w)) => KwGet(w, PName(1)) = FirstArg(base, cc)
+OrderMatters == OrdState => \E cc \in OrdCallsOf[base] : \E order \in Orders(cc) :
+                   Len(cc.pos) = 0 /\ FirstArg(base, cc) # Unspecified /\ Written(cc, order).kw[1][2] # FirstArg(base, cc)
 \* (d) the statement's equation for every binding the caller got from getcallargs and did not edit:
 \* call_with_callargs(obj, getcallargs(obj, *a, **k)) == obj( *a, **k ) wherever the right-hand side is pinned
 \* (a fact about base function and wrapper, not about the state: examined once per session, on its first states)
